@@ -120,7 +120,13 @@ pub fn replay(cases_path: &str, out: &str) {
         }
         // every enabled query, each on its own copy of the state (queries compress paths)
         for a in 0..n {
-            let mut d = base.clone();
+            // alternately a clone and a clone_from into an object with another history (both are copies of the state)
+            let mut d = if a % 2 == 0 { base.clone() } else {
+                let mut o = DSU::new(n + 2);
+                o.un(0, n + 1);
+                o.clone_from(&base);
+                o
+            };
             let got = catch(|| d.size(a));
             v.checks += 1;
             if got != Ok(size[a]) {
@@ -222,8 +228,15 @@ impl Rec {
                 60..=74 => self.check(rng.usize(n), rng.usize(n)),
                 75..=89 => self.size(rng.usize(n)),
                 90..=93 => self.deepest(),
-                94..=95 => {
+                94 => {
                     self.d = self.d.clone();
+                    self.t.ev(json!({"ev": "clone"}));
+                }
+                95 => {
+                    let mut o = DSU::new(2);
+                    o.un(0, 1);
+                    o.clone_from(&self.d);
+                    self.d = o;
                     self.t.ev(json!({"ev": "clone"}));
                 }
                 _ => {
@@ -304,7 +317,7 @@ pub fn record(seed: u64, tier: &str, out: &str) {
         }
     }
     // (iii) big universes: only checkpoints are logged; component size counted by walking parents
-    let bigs: &[usize] = if thorough { &[10_000, 100_000, 1_000_000] } else { &[10_000, 100_000] };
+    let bigs: &[usize] = if thorough { &[10_000, 100_000, 1 << 17, 1_000_000, (1 << 20) + 1] } else { &[10_000, 100_000, (1 << 17) + 3] };
     for &n in bigs {
         for mode in 0..4 {
             let mut d = DSU::new(n);
@@ -386,6 +399,26 @@ pub fn record(seed: u64, tier: &str, out: &str) {
             }
             r.runs += 1;
             r.t.ev(json!({"ev": "ckpt", "n": n, "d": bd, "cs": cs, "mode": mode}));
+            // queries on the big forest, deepest element first (before any lookup has compressed its path): for the
+            // binomial and chain orders the specification knows the partition (one class of n elements)
+            if mode <= 2 {
+                let probes: Vec<usize> = vec![bv, 0, n - 1, n / 2, rng.usize(n), bv];
+                let rows: Vec<Value> = probes.iter().map(|&v| {
+                    let w = rng.usize(n);
+                    let sz = d.size(v);
+                    let chk = d.check(v, w);
+                    let same = d.par(v) == d.par(w);
+                    json!([v, w, sz, chk, same])
+                }).collect();
+                // a restored snapshot answers the same (Clone::clone_from, the buffer-reusing form)
+                let mut e = DSU::new(3);
+                e.clone_from(&d);
+                let rows2: Vec<Value> = probes.iter().map(|&v| {
+                    let w = rng.usize(n);
+                    json!([v, w, e.size(v), e.check(v, w), e.par(v) == e.par(w)])
+                }).collect();
+                r.t.ev(json!({"ev": "bigq", "n": n, "pattern": if mode == 2 { "chain" } else { "binomial" }, "rows": rows, "rows_clone_from": rows2}));
+            }
         }
     }
     let ev = r.t.finish();
